@@ -897,6 +897,61 @@ def returned_only_if(ev, body, env, local):
     [(cond, False)] — or None when the value is not consumed that way"""
     from flow import consumers
     cons = consumers(body, local)
+    if len(cons) == 1 and cons[0]["kind"] == "call" and "fn" in cons[0]["term"]:
+        # … or as an argument of a local helper that hands it on as `Err(e)` only on some of its paths
+        # (`fn ensure(cond: bool, e: E) -> Result<(), E> { if cond { Ok(()) } else { Err(e) } }`): the conditions of those paths,
+        # in the caller's terms
+        t = cons[0]["term"]
+        key = t["fn"].get("resolved_key") or t["fn"].get("key")
+        cb = ev.facts.bodies.get(key)
+        if cb is not None and cb.kind != "Closure" and key not in ev.opaque:
+            try:
+                args = {i + 1: ev.operand(env, a, (cons[0]["block"], None)) for i, a in enumerate(t["args"])}
+                mine = [i + 1 for i, a in enumerate(t["args"]) if a["k"] in ("move", "copy") and a["place"]["l"] == local and not a["place"]["proj"]]
+                cenv = ev.inline_env(cb, args, env.depth + 1, env.path + ((body.key, cons[0]["block"]),))
+                cbody = cenv.body
+                sites = []
+                uses = 0
+                alias = set(mine)
+                for _round in range(3):   # `_t = move e; Err(move _t)`
+                    for bi, si, st in cbody.stmts():
+                        if st["k"] == "assign" and st["rv"]["k"] == "use" and not st["place"]["proj"] and isinstance(st["rv"].get("op"), dict) and \
+                                st["rv"]["op"].get("k") in ("move", "copy") and st["rv"]["op"]["place"]["l"] in alias and not st["rv"]["op"]["place"]["proj"]:
+                            alias.add(st["place"]["l"])
+                for bi, si, st in cbody.stmts():
+                    rv = st["rv"] if st["k"] == "assign" else None
+                    if rv is None or (rv["k"] == "use" and st["place"]["l"] in alias):
+                        continue
+                    ops = [o for o in (rv.get("ops") or []) if isinstance(o, dict)] + [rv[k] for k in ("op", "a", "b") if isinstance(rv.get(k), dict)]
+                    hit = [o for o in ops if o.get("k") in ("move", "copy") and o["place"]["l"] in alias]
+                    if not hit:
+                        continue
+                    uses += 1
+                    if rv["k"] == "agg" and rv.get("variant") == "Err" and st["place"]["l"] == 0 and not st["place"]["proj"]:
+                        sites.append(bi)
+                live_ = cbody.live_blocks()
+                if len(mine) == 1 and (uses == 0 or all(x not in live_ for x in sites)) and cb.j.get("output", "").startswith("std::result::Result") and \
+                        any(st["k"] == "assign" and st["rv"]["k"] == "agg" and st["rv"].get("variant") == "Err" for _b, _s, st in cb.stmts()):
+                    # for these arguments the helper cannot take the path that hands the error on (its condition is known
+                    # here, e.g. the size test of unit weights): the error value is built but never returned
+                    return [(("const", "bool", 0), True)]
+                if len(mine) == 1 and uses == 1 and len(sites) == 1:
+                    g = Guards(ev, cbody, cenv)
+                    rels, raw = g.relations_at(sites[0])
+                    out = []
+                    for term, truth, sw in raw:
+                        if not isinstance(truth, bool):
+                            continue
+                        if term[0] == "phi":
+                            # a join of per-variant values: alternatives that are the constant ¬truth cannot be the one taken
+                            rest = [a_ for a_ in term[1] if a_ != ("const", "bool", 0 if truth else 1)]
+                            if len(rest) == 1:
+                                term = rest[0]
+                        out.append((term, truth))
+                    if out:
+                        return out
+            except (RecursionError, KeyError, IndexError):
+                pass
     if len(cons) != 1 or cons[0]["kind"] != "call" or cons[0]["cid"].rsplit("::", 1)[-1] != "ok_or":
         return None
     t = cons[0]["term"]
